@@ -221,6 +221,9 @@ var jsonStrings = [][]byte{
 	nil, []byte("a"), []byte(`"`), []byte(`\`), []byte("\n"), []byte("\r\t"), {0}, {1}, {0x1f}, {0x7f}, {0x80}, {0xff},
 	[]byte("  "), []byte("héllo wörld"), []byte("日本語"), []byte(",\n"), []byte(`a"b\c`), []byte("</script>"),
 	{0xc3}, {0xe2, 0x82}, []byte(": "), []byte("{}[]"),
+	// line separators in the middle, the replacement character itself, the code points next to U+2028/9
+	[]byte("a\u2028b"), []byte("\u2029x\u2028"), []byte("\ufffd"), []byte("x\ufffdy\ufffd"), []byte("12\u2030"), []byte("51\u00b0 28\u2032 40\u2033"),
+	[]byte("\u2039q\u203a"), []byte("wow\u203c"), []byte("\u2027\u202a\u202f\u2030\u203f\u2040"), []byte("\u1fff\u2000\u20ff"),
 }
 
 func (g *Gen) jsonStr() []byte {
@@ -529,6 +532,21 @@ func runC19(r *Runner, g *Gen, tier string) string {
 			items = append(items, A(hx(d)))
 		}
 		r.Do(L(items...), k > 2, "internseq")
+	}
+	// long values through interned string and null.String fields (a length-based shortcut must still be a whole decode)
+	for _, n := range []int{1023, 1024, 1025, 4097, 70000} {
+		lt := Struct(&FieldDef{Name: "S", Exported: true, Plenc: "1,intern", T: B("str")}, &FieldDef{Name: "N", Exported: true, Plenc: "2,intern", T: Ext("null.String")})
+		long := make([]byte, n)
+		for i := range long {
+			long[i] = byte('a' + i%23)
+		}
+		v := &Val{K: "r", L: []*Val{{K: "s", Data: long}, {K: "p", P: &Val{K: "s", Data: long}}}}
+		r.Do(codecOp("rt", "(cfg 00 null)", lt, "", v.Sexp()), true, "rt.intern-long")
+		// single bytes of every value, too (a table of one-character strings must hold the BYTES)
+	}
+	for b := 0; b < 256; b += 5 {
+		lt := Struct(&FieldDef{Name: "S", Exported: true, Plenc: "1,intern", T: B("str")})
+		r.Do(codecOp("rt", "00", lt, "", (&Val{K: "r", L: []*Val{{K: "s", Data: []byte{byte(b)}}}}).Sexp()), true, "rt.intern-byte")
 	}
 	internLargeOps(r, scale(tier, 6, 48))
 	// thousands of distinct values through one field (beyond any table size limit one might pick)
